@@ -3010,9 +3010,105 @@ fn run_single(name: &str, spec: &StackSpec, tab: &Table, ops: &[Op], proc_: &mut
     true
 }
 
+/// Stack shapes in which per-layer-filtered layers sit inside `and_then` trees, Vecs, Options and
+/// Boxes, with more layers stacked on top: every `.with()` asks the collector below "do you have
+/// per-subscriber filters?" through the `downcast_raw` marker plumbing (`dyn Collect::is`), and
+/// every composite answers by combining its members' answers.  Under the interpreter a wrong
+/// pointer in any arm is undefined behaviour; natively each layer must still count exactly the
+/// events its own filter accepts.
+fn psf_shapes_probe(out: &mut Out) {
+    use std::sync::atomic::{AtomicU64, Ordering};
+    use tracing_subscriber::filter::LevelFilter as LF;
+    #[derive(Clone)]
+    struct Cnt(Arc<AtomicU64>);
+    impl<C: Collect> Subscribe<C> for Cnt {
+        fn on_event(&self, _: &Event<'_>, _: Context<'_, C>) {
+            self.0.fetch_add(1, Ordering::Relaxed);
+        }
+    }
+    type BL = Box<dyn Subscribe<Registry> + Send + Sync>;
+    let mk = || Cnt(Arc::new(AtomicU64::new(0)));
+    let emit = || {
+        tracing::error!("e");
+        tracing::info!("i");
+        tracing::trace!("t");
+    };
+    let mut problems: Vec<String> = vec![];
+    let mut check = |name: &str, d: Dispatch, cs: &[(&Cnt, u64)]| {
+        {
+            let _g = dispatch::set_default(&d);
+            emit();
+        }
+        if d.downcast_ref::<Registry>().is_none() {
+            problems.push(format!("{name}: downcast_ref::<Registry>() answers None"));
+        }
+        for (i, (c, want)) in cs.iter().enumerate() {
+            let got = c.0.load(Ordering::Relaxed);
+            if got != *want {
+                problems.push(format!("{name}: layer #{i} counted {got} of the three events (ERROR, INFO, TRACE), its filter accepts {want}"));
+            }
+        }
+    };
+    // tree with both branches filtered, another layer on top
+    let (a, b, c) = (mk(), mk(), mk());
+    check(
+        "registry.with(A.with_filter(ERROR).and_then(B.with_filter(INFO))).with(C)",
+        Dispatch::new(Registry::default().with(a.clone().with_filter(LF::ERROR).and_then(b.clone().with_filter(LF::INFO))).with(c.clone())),
+        &[(&a, 1), (&b, 2), (&c, 3)],
+    );
+    // tree with one filtered branch, a filtered layer on top
+    let (a, b, c) = (mk(), mk(), mk());
+    check(
+        "registry.with(A.with_filter(INFO).and_then(B)).with(C.with_filter(ERROR))",
+        Dispatch::new(Registry::default().with(a.clone().with_filter(LF::INFO).and_then(b.clone())).with(c.clone().with_filter(LF::ERROR))),
+        &[(&a, 2), (&b, 3), (&c, 1)],
+    );
+    // nested trees, boxed, three levels of .with()
+    let (a, b, c, e) = (mk(), mk(), mk(), mk());
+    check(
+        "registry.with(Box(A.with_filter(ERROR).and_then(B.with_filter(TRACE).and_then(C.with_filter(INFO))))).with(E).with(Identity)",
+        Dispatch::new(
+            Registry::default()
+                .with(Box::new(a.clone().with_filter(LF::ERROR).and_then(b.clone().with_filter(LF::TRACE).and_then(c.clone().with_filter(LF::INFO)))) as BL)
+                .with(e.clone())
+                .with(tracing_subscriber::subscribe::Identity::new()),
+        ),
+        &[(&a, 1), (&b, 3), (&c, 2), (&e, 3)],
+    );
+    // Vec of filtered layers and an Option around a filtered layer, more layers above
+    let (a, b, c, e) = (mk(), mk(), mk(), mk());
+    check(
+        "registry.with(vec![A.with_filter(ERROR), B.with_filter(INFO)]).with(Some(C.with_filter(TRACE))).with(E)",
+        Dispatch::new(
+            Registry::default()
+                .with(vec![Box::new(a.clone().with_filter(LF::ERROR)) as BL, Box::new(b.clone().with_filter(LF::INFO)) as BL])
+                .with(Some(c.clone().with_filter(LF::TRACE)))
+                .with(e.clone()),
+        ),
+        &[(&a, 1), (&b, 2), (&c, 3), (&e, 3)],
+    );
+    // filter on a whole tree
+    let (a, b, c) = (mk(), mk(), mk());
+    check(
+        "registry.with(A.and_then(B.with_filter(ERROR)).with_filter(INFO)).with(C)",
+        Dispatch::new(Registry::default().with(a.clone().and_then(b.clone().with_filter(LF::ERROR)).with_filter(LF::INFO)).with(c.clone())),
+        &[(&a, 2), (&b, 1), (&c, 3)],
+    );
+    out.count("psf_shape_probes", 5);
+    out.evals += 5;
+    if let Some(p) = problems.first() {
+        out.violation(format!("per-layer-filtered layers inside composites: {p}"), json!({"part": "psf_shapes", "problems": problems}));
+    }
+}
+
 fn child(args: &Args) {
     let thorough = args.tier == vlib::Tier::Thorough;
     let mut out = Out::new();
+    psf_shapes_probe(&mut out);
+    if args.get("probe_only").is_some() {
+        out.emit();
+        return;
+    }
     out.set("debug_assertions", if cfg!(debug_assertions) { "true" } else { "false" });
     let mut st = Stats::default();
     let mut proc_ = Proc::new();
